@@ -12,6 +12,11 @@ ROOT = os.path.dirname(os.path.dirname(os.path.abspath(__file__)))
 
 
 def fp(path):
+    if path.endswith(".json"):           # data files: canonical JSON
+        try:
+            return hashlib.sha256(json.dumps(json.load(open(path, encoding="utf-8")), sort_keys=True).encode()).hexdigest()[:16]
+        except Exception as e:
+            return "unparsable:" + type(e).__name__
     try:
         tree = ast.parse(open(path, encoding="utf-8").read())
     except Exception as e:
